@@ -121,6 +121,51 @@ CLAIMS = {
    note=PROOF_NOTE + 'Modelled, not verified: LMDB (ordered maps, snapshot reads inside a write transaction, atomic commit), the mmap-append event map; the seven index tables are modelled as functions of the set of indexed events with range scans as filter+key-order sort. ' + "PARTIAL: exactness of vanish's target set is not a theorem yet (needs completeness of the author and kind+tag query plans).",
    technique="Lean 4 proof + differential correspondence with the abstract specification as direct oracle",
    design="6/C18"),
+ 'C05': dict(
+   text="Lean theorems for every store state, filter, screening function and EVERY index plan of find_events (ids, author+kind, author+tag, kind+tag, tag, "
+        "author, scrape; moving since; early exits): every returned event is currently retrievable, matches the filter (with C06: under NIP-01 semantics) "
+        "and passed the screen; no duplicates; newest first; at most limit; the redacted flag implies a retrievable matching event screened redacted; "
+        "refused as scraping iff the filter names no ids/authors/tags and no allowance covers it (span saturating); never panics. The completeness half "
+        "(nothing qualifying is missed; under a limit the newest are kept; the answer does not depend on the plan) is decided by correspondence: ~40 "
+        "filters after every step of every history on the real store vs the model (exact answer) and vs ValidAnswer of the abstract specification.",
+   note=PROOF_NOTE + 'Modelled, not verified: LMDB (ordered maps, snapshot reads inside a write transaction, atomic commit), the mmap-append event map; the seven index tables are modelled as functions of the set of indexed events with range scans as filter+key-order sort. ' + "PARTIAL: completeness / newest-k / plan independence are not theorems; they rest on the sampled correspondence and the direct ValidAnswer oracle. NIP-01 filters only (single-letter tag names); multi-letter and empty names are run and compared, not judged.",
+   technique="Lean 4 proof (loop invariant over all seven query plans) + differential correspondence + ValidAnswer oracle from the abstract specification",
+   design="6/C05"),
+ 'C09': dict(
+   text="Lean theorems over ALL histories: at most one retrievable event per replaceable address in every reachable state (one_per_address, by induction over "
+        "operations incl. deletion requests, removal, vanish, rebuild); an event strictly older than the holder of its address is refused (replaced, or "
+        "deleted/duplicate) and changes nothing; a stored non-deletion event leaves every event of a different address (differing in author, kind, any byte "
+        "or the length of d) and every address-less event in place; the kind classes are exactly the NIP-01 ranges for every kind. Correspondence: histories "
+        "concentrated on one or two addresses and their neighbours (kind +-1 across every boundary, d values sharing 182-byte prefixes, NUL-padded, two d "
+        "tags), all 65,536 kinds exhaustively through the classifiers.",
+   note=PROOF_NOTE + 'Modelled, not verified: LMDB (ordered maps, snapshot reads inside a write transaction, atomic commit), the mmap-append event map; the seven index tables are modelled as functions of the set of indexed events with range scans as filter+key-order sort. ' + "An event of a parameterized kind without a d value has no address (the code's reading; NIP-01's 'missing = empty' is noted in DESIGN.md).",
+   technique="Lean 4 proof (address-uniqueness invariant by induction over histories) + differential correspondence + exhaustive kind enumeration",
+   design="6/C09"),
+ 'C10': dict(
+   text="Lean theorems for every reachable state and EVERY stored event (any kind, any tag list in any order, whatever it returns): an event of another key "
+        "that was retrievable stays retrievable and reads back unchanged; no deletion marker appears on another key's stored event; no address marker of "
+        "another key changes; over whole histories of events by other keys the victim stays. Correspondence + direct oracle: requests with 0-5 e/a tags "
+        "mixing own/foreign/absent/malformed targets at random points of histories; every foreign event retrievable and unmarked afterwards.",
+   note=PROOF_NOTE + 'Modelled, not verified: LMDB (ordered maps, snapshot reads inside a write transaction, atomic commit), the mmap-append event map; the seven index tables are modelled as functions of the set of indexed events with range scans as filter+key-order sort. ' + "Victims are retrievable events; a marker placed on an id that is not stored is the code's documented choice and outside the property.",
+   technique="Lean 4 proof (induction over the request's tag list with a confinement invariant) + differential correspondence + direct oracle",
+   design="6/C10"),
+ 'C11': dict(
+   text="Lean theorems over all continuations (stores, further requests in any timestamp order, removal, vanish, reopen, rebuild): an id marker once set "
+        "stays set; the deletion time of an address never decreases; storing an event whose id is marked never succeeds, now or later; an event at a "
+        "deleted address not newer than the deletion time is refused, now and after any continuation; an event newer than every deletion of its address "
+        "(and not marked by id) is never refused as deleted. Correspondence + abstract specification after every step: reply classes, the retrievable "
+        "set and both marker tables with their times.",
+   note=PROOF_NOTE + 'Modelled, not verified: LMDB (ordered maps, snapshot reads inside a write transaction, atomic commit), the mmap-append event map; the seven index tables are modelled as functions of the set of indexed events with range scans as filter+key-order sort. ' + "PARTIAL: that every covered event is absent from the retrievable set in every continuation is established by correspondence with the abstract specification (retrievable set after every step), not yet by a theorem.",
+   technique="Lean 4 proof (monotonicity of markers by induction over histories) + differential correspondence with the abstract specification",
+   design="6/C11"),
+ 'C17': dict(
+   text="Lean theorems: an unretrievable event is returned by no filter through any of the seven plans; a retrievable event is returned by the filter of its "
+        "own id; the tag-index entry count is a function of what remains indexed and is zero when nothing is. The agreement of ALL access paths (author, "
+        "author+kind, each tag value alone / with author / with kind, time window) and the four entry counts = number of retrievable events are decided by "
+        "correspondence after every step: the self-filter family per event seen vs the specification, and stats on the real store.",
+   note=PROOF_NOTE + 'Modelled, not verified: LMDB (ordered maps, snapshot reads inside a write transaction, atomic commit), the mmap-append event map; the seven index tables are modelled as functions of the set of indexed events with range scans as filter+key-order sort. ' + "PARTIAL: the model derives all index tables from the set of indexed events; that the real index/deindex pairs keep the tables in that relation is exactly what the per-step stats and self-filter comparison checks, not a theorem about the Rust.",
+   technique="Lean 4 proof (corollaries of the find_events loop invariant) + differential correspondence on entry counts and the self-filter family",
+   design="6/C17"),
 }
 
 checks = []
